@@ -344,6 +344,9 @@ func (blockchain *Blockchain) BeginBlock(req abciTypes.RequestBeginBlock) abciTy
 		if candidate == nil || candidate.Status == candidates.CandidateStatusOffline || blockchain.stateDeliver.Validators.GetByTmAddress(address) == nil {
 			continue
 		}
+		if blockchain.stateDeliver.Validators.GetByTmAddress(address).IsToDrop() {
+			continue // already punished in this block (two pieces of evidence against the same validator)
+		}
 
 		blockchain.stateDeliver.FrozenFunds.PunishFrozenFundsWithID(height, height+types.GetUnbondPeriod(), candidate.ID)
 		blockchain.stateDeliver.Validators.PunishByzantineValidator(address)
